@@ -27,6 +27,7 @@ PROP = dict(
         "Shangrla.C04.simple_complete_wrong_winner", "Shangrla.C04.simple_complete_unique_winner",
         "Shangrla.C04.sim_irv_valid", "Shangrla.C04.sim_irv_distinct_candidates", "Shangrla.C04.sim_irv_terminates",
         "Shangrla.C04.irv_count_unique", "Shangrla.C04.sim_irv_no_ties", "Shangrla.C04.sim_then_simple",
+        "Shangrla.C04.simple_complete_competing", "Shangrla.C04.simple_complete_raire",
     ],
     groups={"raire": (3000, 120000), "simp": (3000, 40000)},
     design_ref="DESIGN.md section 5, C04; Appendix F; sections 15.6, 15.9",
